@@ -291,6 +291,17 @@ def run(cx, rep):
                         ins = len([x for x in walk(t["body"]) if x["k"] == "MethodCall" and x["method"] == "insert" and locals_in(x["recv"]) == [a_args["name"]]])
                         sinks[g] = {"name_param": ps.index(a_name["name"]), "args_param": ps.index(a_args["name"]), "extra": sk["extra"] + ins}
                         changed = True
+                    elif a_name["k"] == "Path" and a_name.get("name") in ps and a_args["k"] == "Path" and a_args.get("res") == "local":
+                        # the argument vector is assembled in a local: `once(first).chain(rest_args).collect()` -
+                        # the wrapper's parameter supplies the rest, every `once(..)` prepends one argument
+                        for st in walk(t["body"]):
+                            if st["k"] == "LetStmt" and st["pat"].get("name") == a_args.get("name") and st.get("init") is not None:
+                                inner = [y.get("name") for x in walk(st["init"]) if x["k"] == "MethodCall" and x.get("method") in ("chain", "extend") and x.get("args")
+                                         for y in walk(x["args"][0]) if y["k"] == "Path" and y.get("res") == "local" and y.get("name") in ps]
+                                onces = len([x for x in walk(st["init"]) if x["k"] == "Call" and (x.get("callee") or "").endswith("iter::once")])
+                                if len(set(inner)) == 1 and not any(x["k"] == "MethodCall" and x.get("method") in ("filter", "skip", "take", "filter_map", "step_by") for x in walk(st["init"])):
+                                    sinks[g] = {"name_param": ps.index(a_name["name"]), "args_param": ps.index(inner[0]), "extra": sk["extra"] + onces}
+                                    changed = True
     rep.rule("C01.1", "constructor table: printer (writer) vs glue imports vs client classes (reader)")
     rep.ob("C01.1", "sinks", len(sinks) >= 2, "could not find the functions that build `new <Name>(..)` expressions in printer.rs", "packages/beff-core/src/print/printer.rs",
            sample={"new_expression_builders": sorted(x.rsplit("::", 1)[-1] for x in sinks)})
@@ -300,8 +311,8 @@ def run(cx, rep):
         for n in walk(t["body"]):
             if n["k"] == "Call" and n.get("callee") in sinks:
                 sk = sinks[n["callee"]]
-                if g in sinks and n["args"][sk["args_param"]]["k"] == "Path" and n["args"][sk["args_param"]].get("name") in P.params[g]:
-                    continue  # pass-through wrapper
+                if g in sinks and n["args"][sk["name_param"]]["k"] == "Path" and n["args"][sk["name_param"]].get("name") in P.params[g]:
+                    continue  # pass-through wrapper (the name is the wrapper's own parameter; its call sites are judged)
                 names = P.strs(n["args"][sk["name_param"]], g)
                 cnt, elems = P.vec_len(n["args"][sk["args_param"]])
                 for nm in names:
@@ -886,6 +897,8 @@ def rest_last_rule(cx, rep, rid):
             n += 1
             # a test of the rest local (is_some / is_none / pattern on it) inside the branch that pushes, or guarding it
             guarded = False
+            def opt_test(e):
+                return any(x["k"] == "MethodCall" and x.get("method") in ("is_some", "is_none") for x in walk(e))
             for iff in walk(lp):
                 if iff["k"] != "If":
                     continue
@@ -894,6 +907,20 @@ def rest_last_rule(cx, rep, rid):
                         continue
                     if any(x["k"] == "MethodCall" and x.get("method") in ("is_some", "is_none") for x in walk(branch) if not any(y is pushes[0] for y in walk(x))):
                         guarded = True
+                    if opt_test(iff["cond"]):
+                        guarded = True
+            # .. or an earlier statement of an enclosing block tests the rest local and leaves (`if rest.is_some() { return error }`)
+            for blk in walk(lp):
+                if blk["k"] != "Block":
+                    continue
+                stmts = list(blk.get("stmts") or []) + ([blk["expr"]] if blk.get("expr") else [])
+                for i, st in enumerate(stmts):
+                    if any(x is pushes[0] for x in walk(st)):
+                        for prev in stmts[:i]:
+                            e = prev.get("e") if prev.get("k") in ("ExprStmt", "Semi") else prev
+                            if isinstance(e, dict) and e.get("k") == "If" and opt_test(e["cond"]) and any(x["k"] == "Ret" for x in walk(e["then"])):
+                                guarded = True
+                        break
             rep.ob(rid, "%s/rest-is-last" % g.rsplit("::", 1)[-1], guarded,
                    "%s lowers the elements of a tuple type by pushing every non-rest element onto the prefix without asking whether the rest element was already seen: `[string, ...number[], boolean]` becomes `[string, boolean, ...number[]]`, a different type, without a diagnostic" % g,
                    "%s:%s" % (f.file, lp.get("line")), sample={"fn": g})
@@ -936,12 +963,33 @@ def proto_key_rule(cx, rep, rid):
                     if y["k"] == "Struct" and (y.get("def") or "").endswith("Str"):
                         val = next((fl["e"] for fl in y.get("fields", []) if fl["name"] == "value"), None)
                 if val is None:
-                    continue
+                    val = st        # the Str token is built by a helper (`string_token(key)`): judge the argument
                 lits = [z for z in walk(val) if z["k"] == "Lit" and z.get("lit") == "str"]
                 if not lits:
                     data_sites.append((g, x.get("line")))
     rep.floor(rid, "object keys emitted from data (not printer literals)", len(data_sites), 1)
     passes = False
+    # the pass and the emitter may sit in two helpers of one driver (`let m = with_own_proto_keys(items); print(m)`)
+    appliers = [g for g, t in F.hir.items() if F.fns.get(g) is not None and "/src/print/" in (F.fns[g].file or "") and
+                any(x["k"] == "MethodCall" and x.get("method") in ("visit_mut_with", "fold_with") for x in walk(t["body"]))]
+    def reach2(g, depth=2, seen=None):
+        seen = seen if seen is not None else {g}
+        if depth > 0:
+            for x in walk(F.hir[g]["body"]):
+                if x["k"] in ("Call", "MethodCall"):
+                    cal = x.get("callee") if x["k"] == "Call" else (x.get("resolved") or x.get("callee"))
+                    tg = F._callee_gid("beff_core", cal or "")
+                    if tg in F.hir and tg not in seen and "/src/print/" in ((F.fns.get(tg) and F.fns[tg].file) or ""):
+                        seen.add(tg)
+                        reach2(tg, depth - 1, seen)
+        return seen
+    if fixers and appliers:
+        for g, t in F.hir.items():
+            if F.fns.get(g) is None or "/src/print/" not in (F.fns[g].file or ""):
+                continue
+            r = reach2(g)
+            if any(a_ in r for a_ in appliers) and any(e_ in r for e_ in emitters):
+                passes = True
     for e in emitters:
         for x in walk(F.hir[e]["body"]):
             if x["k"] == "MethodCall" and x.get("method") in ("visit_mut_with", "fold_with", "visit_mut_children_with"):
